@@ -346,6 +346,14 @@ func fullLoopsOver(info *types.Info, root ast.Node, isSrc func(e ast.Expr) bool)
 			if lp.Value != nil {
 				vv = prog.IdentObj(info, lp.Value)
 			}
+			if tx := info.TypeOf(lp.X); tx != nil && lp.Value == nil {
+				// range over an iterator function with one yielded value: that value is the element
+				if sig, isFunc := tx.Underlying().(*types.Signature); isFunc && sig.Params().Len() == 1 {
+					if ys, isYield := sig.Params().At(0).Type().Underlying().(*types.Signature); isYield && ys.Params().Len() == 1 {
+						iv, vv = nil, iv
+					}
+				}
+			}
 			x := lp.X
 			out = append(out, fullLoop{Stmt: lp, Body: lp.Body, Idx: iv, IsElem: func(e ast.Expr) bool {
 				e = ast.Unparen(e)
